@@ -70,7 +70,8 @@ EdgeP(mp, m, pol, aug, xw, depth) ==
         l     == Len(lab)
         lbits == LabelEnc(KindFor(pol, lab, m, depth), lab, m)
     IN IF l = m
-       THEN [b |-> lbits \o (IF aug THEN mp[lab].x ELSE <<>>) \o mp[lab].v, r |-> <<>>]
+       THEN [b |-> lbits \o (IF aug THEN mp[lab].x ELSE <<>>) \o mp[lab].v,
+             r |-> IF "r" \in DOMAIN mp[lab] THEN mp[lab].r ELSE <<>>]        \* leaf values may carry references
        ELSE [b |-> lbits \o (IF aug THEN NatBits(SumX(mp, xw), xw) ELSE <<>>),
              r |-> <<EdgeP(SubMap(mp, l, m, 0), m - l - 1, pol, aug, xw, depth + 1),
                      EdgeP(SubMap(mp, l, m, 1), m - l - 1, pol, aug, xw, depth + 1)>>]
